@@ -147,8 +147,13 @@ def one_merge(rng, workdir: Path, rec, k):
     except Exception as e:  # noqa: BLE001
         raise Mismatch('valid merge raised', {'error': f'{type(e).__name__}: {e}', **case})
     small = rng.random() < 0.4
-    st = TrajectoryStore.open(base_file=out,
-                               cache_size_mb=1.5 * max_nb / (1024 * 1024) if small else 64, **kw)
+    try:
+        st = TrajectoryStore.open(base_file=out,
+                                   cache_size_mb=1.5 * max_nb / (1024 * 1024) if small else 64, **kw)
+    except Exception as e:  # noqa: BLE001
+        raise Mismatch('the merged store cannot be opened',
+                       {'error': f'{type(e).__name__}: {str(e)[:200]}', 'metadata': meta_kw,
+                        **case})
     try:
         rec.ev()
         if len(st) != len(model):
